@@ -1074,6 +1074,10 @@ def _resolve_action_conflicts(
                 if head == picked_head:
                     continue
                 competing_flow_state = get_flow_state_from_head(state, head)
+                if not is_active_flow(competing_flow_state):
+                    # The flow was taken down by a loser of this group (an ancestor of it) in
+                    # the meantime: it neither shares the winning action nor competes any more
+                    continue
                 competing_event = head_events[head.uid]
                 if _is_same_action_event(state, winning_event, competing_event):
                     if (
